@@ -209,7 +209,15 @@ def register(PROPS, COMPONENTS):
                    "every push_back is in the vector, was reaped by a selection, or released by the vector's destructor, selections "
                    "take only objects whose use_count is 1, and returned sizes are the vector's length at a critical section of the "
                    "call or the sentinel exactly on a first-attempt time-out (C16_accounting, C16_reap_only_unowned, C16_size_value, "
-                   "C16_size_returned, C16_destroy_*)." + DD_TIE,
+                   "C16_size_returned, C16_destroy_*). Liveness without any fairness assumption (Proof/DDLive.lean, shared-potential form "
+                   "of Base/Live.lean; environment events = new/dup/drop and the five calls, at script level or inside a callback / "
+                   "payload destructor): C16_terminates — no infinite execution with finitely many environment events (every library "
+                   "step, time-outs, callback and destructor ends, sleeps and retry loops included, lowers 5|vec| + the summed frame "
+                   "ranks); C16_thread_cases / C16_progress / C16_stuck_all_returned — every thread inside a call (nested re-entrant "
+                   "ones included) has an enabled library step or waits in add / size for the lock held by another thread that can "
+                   "release it, so a state without enabled library step has every stack empty; new invariants: stack grammar (Shape), "
+                   "a critical-section frame on top implies holding the lock (HoldsL), the object of a dying frame is pending and no "
+                   "two threads are about to destroy the same object (C16_dying_unique)." + DD_TIE,
         level_note="Trusted: Lean kernel (+propext, Classical.choice, Quot.sound), the primitive semantics of std::timed_mutex, "
                    "std::shared_ptr reference counting (represented by the ledger), shim + scheduler + driver glue. Model stage A "
                    "(the exact program), except that the scan of destroyObjects may skip selectable objects (`skip` parameter).",
@@ -218,8 +226,12 @@ def register(PROPS, COMPONENTS):
                  "again later and gets one callback per reap",
                  "the size recorded under the lock (`sz`) is carried in the call's frames; that it is unchanged from the first "
                  "critical section to the return is visible in the step function but not stated as a separate history theorem",
-                 "deadlock-freedom of re-entrant calls is proved as enabledness facts (no self-hold, holder can release, "
-                 "acquisitions enabled when the lock is free); fair termination is not mechanised"],
+                 "deadlock-freedom of re-entrant calls and termination are proved for every scheduler for executions with finitely "
+                 "many user decisions (C16_progress, C16_stuck_all_returned, C16_terminates), with one exception stated in the "
+                 "theorems: an addObjectsToBeDestroyed(k) in flight while no external reference to k exists (`Unowned`: the model "
+                 "counts external references per object, not per owner, so it cannot exclude a client dropping a reference it does "
+                 "not own); NOT proved: that one particular caller is eventually served when other threads call infinitely often "
+                 "(unfair mutex / scheduler)"],
     )
 
 
